@@ -2,7 +2,7 @@
    sol_* / ral_* layouts are GENERATED from Messages.sol parseVM and governance.ral parseAndVerifyVAA on every run. *)
 From Coq Require Import List ZArith Lia Bool Arith.
 From Coq Require Import Strings.Byte.
-From WH Require Import lib.Bytes lib.Layout gen.Extracted model.Vaa model.Contracts proofs.VaaProofs proofs.LayoutProofs.
+From WH Require Import lib.Bytes lib.Layout lib.Keccak gen.Extracted model.Vaa model.Contracts proofs.VaaProofs proofs.LayoutProofs proofs.KeccakProofs.
 Import ListNotations.
 Open Scope Z_scope.
 
@@ -20,6 +20,52 @@ Qed.
 (* the digest is the double Keccak-256 of that body, for whatever function keccak is *)
 Theorem C04_digest_is_double_hash : forall keccak v, digest keccak v = keccak (keccak (body v)).
 Proof. reflexivity. Qed.
+
+(* ... and for the function the node really calls — Keccak-256 (lib/Keccak.v: Keccak-f[1600], rate 136, pad10*1 with domain byte 0x01,
+   executable, compared with go-ethereum crypto.Keccak256 and with SigningMsg on every run) — it is a concrete 32-byte value *)
+Theorem C04_digest_is_concrete : forall v,
+  digest keccak256 v = keccak256 (keccak256 (body v)) /\ length (digest keccak256 v) = 32%nat.
+Proof. intros v. split; [reflexivity|apply keccak256_length]. Qed.
+
+(* the sponge: the padded message is a positive number of whole 136-byte blocks that starts with the message itself, padding loses
+   nothing (injective), the blocks are absorbed in order (xor into the 17 rate lanes, then the permutation), 32 bytes are squeezed *)
+Theorem C04_keccak_padding : forall m,
+  (exists k, (1 <= k)%nat /\ length (pad m) = (k * rate)%nat) /\ firstn (length m) (pad m) = m /\
+  concat (blocks (pad m)) = pad m /\ Forall (fun b => length b = rate) (blocks (pad m)) /\
+  length (blocks (pad m)) = (length m / rate + 1)%nat /\ Forall (fun b => length (lanes b) = 17%nat) (blocks (pad m)).
+Proof.
+  intros m. destruct (blocks_pad m) as [H1 [H2 H3]].
+  repeat apply conj; [apply pad_positive_multiple|apply pad_prefix|exact H1|exact H2|exact H3|apply blocks_pad_lanes].
+Qed.
+
+Theorem C04_keccak_padding_injective : forall m1 m2, pad m1 = pad m2 -> m1 = m2.
+Proof. exact pad_inj. Qed.
+
+Theorem C04_keccak_sponge_structure : forall m,
+  keccak256 m = squeeze (fold_left absorb (blocks (pad m)) zero_state) /\
+  (forall bs b st, fold_left absorb (bs ++ [b]) st = keccak_f (xor_lanes (fold_left absorb bs st) (lanes b))) /\
+  length (keccak256 m) = 32%nat.
+Proof. intros m. repeat apply conj; [reflexivity|intros bs b st; apply sponge_step|apply keccak256_length]. Qed.
+
+(* the N-valued lanes are 64-bit machine words: every state the sponge goes through, for every message, and every intermediate
+   state inside a round, is 25 lanes below 2^64; masking is reduction mod 2^64; the rotation is Go's bits.RotateLeft64 *)
+Theorem C04_keccak_lanes_are_64bit :
+  (forall m k, state_ok (fold_left absorb (firstn k (blocks (pad m))) zero_state)) /\
+  (forall a, state_ok a ->
+     state_ok (theta a) /\ state_ok (rho_pi (theta a)) /\ state_ok (chi (rho_pi (theta a))) /\
+     (forall rc, In rc round_constants -> state_ok (keccak_round a rc)) /\
+     (forall blk, state_ok (xor_lanes a (lanes blk))) /\ state_ok (keccak_f a)) /\
+  (forall x, N.land x mask64 = (x mod 2 ^ 64)%N) /\
+  (forall x r, w64 x -> (r <= 64)%N -> rotl x r = ((x * 2 ^ r) mod 2 ^ 64 + x / 2 ^ (64 - r))%N) /\
+  (forall a b, w64 a -> N.ldiff a b = N.land a (N.lxor b mask64)) /\
+  (forall b0 b1 b2 b3 b4 b5 b6 b7, lane_bytes (lane8 b0 b1 b2 b3 b4 b5 b6 b7) = [b0; b1; b2; b3; b4; b5; b6; b7]).
+Proof.
+  repeat apply conj; [exact sponge_prefix_ok|exact keccak_steps_ok|exact land_mask64|exact rotl_sum|exact ldiff_machine|exact lane_bytes_lane8].
+Qed.
+
+(* a recorded oracle table passes the validator exactly when every pair in it is a value of keccak256 *)
+Theorem C04_keccak_table_validator : forall t, keccak_table_ok t = true <-> (forall x y, In (x, y) t -> keccak256 x = y).
+Proof. exact keccak_table_ok_spec. Qed.
 
 (* it does not depend on version, guardian-set index, signatures or sub-second time ... *)
 Theorem C04_independent_of_header : forall keccak v1 v2, same_body_fields v1 v2 ->
@@ -78,6 +124,24 @@ Example C04_example : wfb ex_vaa = true /\
   option_map rv_payload (ral_parse (marshal ex_vaa)) = Some [x01; x02; x03].
 Proof. vm_compute. repeat split; reflexivity. Qed.
 
+(* the digest of that VAA, computed by the Gallina Keccak-256 (the Go harness signs the same VAA on every run: row "ex_vaa") *)
+Example C04_example_digest : digest keccak256 ex_vaa =
+  [x25; x39; x3c; x21; xf3; xfc; x58; x3e; xaf; x02; x3c; xa5; xac; x90; xae; x40; xda; x2c; x38; xa6; x35; xf6; x2b; xae; x4e; xd8; xcf; xa3; xd1; x5e; x7b; xd9].
+Proof. vm_compute. reflexivity. Qed.
+
+(* known answers of Keccak-256 (x/crypto/sha3.NewLegacyKeccak256; the Go harness recomputes them on every run: rows "kk" of kind kat) *)
+Example C04_keccak_known_answers :
+  keccak256 [] = [xc5; xd2; x46; x01; x86; xf7; x23; x3c; x92; x7e; x7d; xb2; xdc; xc7; x03; xc0; xe5; x00; xb6; x53; xca; x82; x27; x3b; x7b; xfa; xd8; x04; x5d; x85; xa4; x70]
+  /\ firstn 4 (keccak256 [x61; x62; x63]) = [x4e; x03; x65; x7a]
+  /\ firstn 4 (keccak256 (kat_pat 135)) = [xcb; xdf; xd9; xde] /\ firstn 4 (keccak256 (kat_pat 136)) = [x7c; xe7; x59; xf1]
+  /\ firstn 4 (keccak256 (kat_pat 137)) = [xac; x73; xd4; xfa] /\ firstn 4 (keccak256 (kat_pat 1024)) = [x80; x67; xfe; x24]
+  /\ state_ok zero_state /\ w64 mask64 /\ keccak_table_ok [([], keccak256 []); ([x61], keccak256 [x61])] = true.
+Proof.
+  repeat apply conj;
+    [exact keccak256_kat_empty|rewrite keccak256_kat_abc; reflexivity|rewrite keccak256_kat_135; reflexivity|rewrite keccak256_kat_136; reflexivity
+    |rewrite keccak256_kat_137; reflexivity|rewrite keccak256_kat_1024; reflexivity|exact (proj1 zero_state_ok)|exact (proj2 zero_state_ok)|exact w64_mask64|vm_compute; reflexivity].
+Qed.
+
 Print Assumptions C04_body_layout.
 Print Assumptions C04_digest_is_double_hash.
 Print Assumptions C04_independent_of_header.
@@ -87,3 +151,9 @@ Print Assumptions C04_injective.
 Print Assumptions C04_injective_mod.
 Print Assumptions C04_solidity_agrees.
 Print Assumptions C04_ralph_agrees.
+Print Assumptions C04_digest_is_concrete.
+Print Assumptions C04_keccak_padding.
+Print Assumptions C04_keccak_padding_injective.
+Print Assumptions C04_keccak_sponge_structure.
+Print Assumptions C04_keccak_lanes_are_64bit.
+Print Assumptions C04_keccak_table_validator.
